@@ -28,6 +28,12 @@ import (
 //	pub1      a fresh QoS 1 message
 //	pub0      a fresh QoS 0 message
 //	drop      the broker cuts the connection; the client reconnects with the same session
+//	amnesia   the broker cuts the connection and loses its session (restart without persistence): every
+//	          open handshake is forgotten on its side, the next CONNACK says "no session present", and
+//	          packet ids are used again for NEW messages while the client may still hold the old ones
+//	relclose id  like rel, but the application is slow with that delivery and, while its callback
+//	          is still running, calls Client.Close() from another goroutine; as soon as Close has
+//	          returned it resumes with a new client on the same session (the broker repeats PUBREL)
 type Op struct {
 	Kind string `json:"k"`
 	ID   int    `json:"id,omitempty"`
@@ -86,6 +92,14 @@ type runner struct {
 	resumes        int
 	dupPub, repRel int
 	pending        *verdict // first violation seen while driving the script
+
+	// slow delivery (relclose): the next callback invocation waits for gate
+	gateArmed   int32
+	gateEntered chan struct{}
+	gate        chan struct{}
+	appCloses   int
+	lost        bool // the broker has lost its session: next CONNACK without session present
+	amnesias    int
 }
 
 type q1 struct {
@@ -126,10 +140,111 @@ func (r *runner) callback(m *packet.Message, err error) error {
 			atomic.AddInt32(&mm.accepted, 1)
 		}
 	}
+	if !strings.HasPrefix(tag, "barrier") && atomic.CompareAndSwapInt32(&r.gateArmed, 1, 0) {
+		r.log.Add(memconn.Event{Actor: "app", Op: "callback-slow", Tag: tag, Note: "the application is busy with this delivery"})
+		close(r.gateEntered)
+		select {
+		case <-r.gate:
+		case <-time.After(ev.Ceiling() * 3):
+		}
+		r.log.Add(memconn.Event{Actor: "app", Op: "callback-returns", Tag: tag})
+	}
 	if reject {
 		return errApp
 	}
 	return nil
+}
+
+// relClose: PUBREL with a slow application that closes the client meanwhile.
+// It returns false when the connection is gone (always, unless the client
+// answered without involving the application).
+func (r *runner) relClose(id int) bool {
+	from := len(r.link.Broker.Inbox)
+	r.gateEntered, r.gate = make(chan struct{}), make(chan struct{})
+	atomic.StoreInt32(&r.gateArmed, 1)
+	release := func() {
+		atomic.StoreInt32(&r.gateArmed, 0)
+		select {
+		case <-r.gate:
+		default:
+			close(r.gate)
+		}
+	}
+	_ = r.link.Broker.Send(&packet.Pubrel{ID: packet.ID(id)})
+	if r.st[id] == compWait {
+		r.repRel++
+	}
+	r.st[id] = compWait
+	isComp := func(g packet.Generic) bool { a, ok := g.(*packet.Pubcomp); return ok && a.ID == packet.ID(id) }
+	deadline := time.Now().Add(ev.Ceiling())
+	entered := false
+	for !entered {
+		select {
+		case <-r.gateEntered:
+			entered = true
+			continue
+		default:
+		}
+		if i := r.link.Broker.WaitFor(from, isComp, time.Millisecond); i >= 0 {
+			// answered without a delivery (the client had completed this id before)
+			release()
+			r.st[id] = idle
+			if acc := atomic.LoadInt32(&r.cur[id].accepted); !r.c.Early && acc != 1 && r.pending == nil {
+				r.pending = r.fail("qos2/not-exactly-once", "the handshake of %s (id %d) was completed with PUBCOMP; the application accepted the message %d times", r.cur[id].tag, id, acc)
+			}
+			return r.pending == nil
+		}
+		if r.link.Broker.EOF {
+			release()
+			r.died(fmt.Sprintf("PUBCOMP id=%d", id))
+			return false
+		}
+		if time.Now().After(deadline) {
+			release()
+			if r.pending == nil {
+				r.pending = r.fail("liveness/no-answer", "PUBREL id=%d: neither a delivery nor PUBCOMP within the ceiling", id)
+			}
+			return false
+		}
+	}
+	// the application is inside its callback: Close from another goroutine
+	r.appCloses++
+	cl := r.cl
+	closed := make(chan struct{})
+	r.log.Add(memconn.Event{Actor: "app", Op: "close-call", Note: "Client.Close() from another goroutine while the callback runs"})
+	go func() {
+		_ = cl.Close()
+		r.log.Add(memconn.Event{Actor: "app", Op: "close-returned"})
+		close(closed)
+	}()
+	early := false
+	select {
+	case <-closed:
+		early = true // Close returned although the callback has not
+	case <-time.After(20 * time.Millisecond):
+	}
+	r.cl = nil
+	r.link.Broker.Drop()
+	r.account(r.link)
+	if early {
+		// the application believes the client is gone and resumes at once; the
+		// broker repeats PUBREL (sender rule) while the old callback is still busy
+		v := r.connect()
+		release()
+		if v != nil && r.pending == nil {
+			r.pending = v
+		}
+		return false
+	}
+	release()
+	select {
+	case <-closed:
+	case <-time.After(ev.Ceiling()):
+		if r.pending == nil {
+			r.pending = r.fail("liveness/close-hangs", "Client.Close, called while the callback was running, did not return after the callback returned")
+		}
+	}
+	return false
 }
 
 // connect (re)establishes the connection and lets the broker retransmit per sender rules.
@@ -174,7 +289,7 @@ func (r *runner) connect() *verdict {
 			continue
 		}
 		r.cl = cl
-		l, _, err := r.d.Accept(fb.Connack(packet.ConnectionAccepted, !r.c.Clean && (r.resumes > 0 || attempt > 0)))
+		l, _, err := r.d.Accept(fb.Connack(packet.ConnectionAccepted, !r.c.Clean && !r.lost && (r.resumes > 0 || attempt > 0)))
 		if l == nil {
 			return r.fail("harness/accept", "%v", err)
 		}
@@ -184,6 +299,7 @@ func (r *runner) connect() *verdict {
 			continue
 		}
 		r.alive = true
+		r.lost = false
 		if !r.armed {
 			// the fault plan counts the client's connection operations from here on
 			r.armed = true
@@ -221,7 +337,7 @@ func (r *runner) connect() *verdict {
 // account: the connection l ended; book its operations against the fault plan.
 func (r *runner) account(l *fb.Link) {
 	r.alive = false
-	if r.c.Clean {
+	if r.c.Clean || r.lost {
 		// a clean session ends with its connection: both sides forget the open handshakes
 		for id := 1; id <= 3; id++ {
 			if r.st[id] != idle && r.cur[id] != nil {
@@ -480,6 +596,21 @@ func runCase(c *Case) (*verdict, int64, *runner) {
 					return true
 				})
 			}
+		case "relclose":
+			id := op.ID
+			if r.st[id] == relPending || r.st[id] == compWait {
+				first := true
+				v = step(func() bool {
+					if r.st[id] != relPending && r.st[id] != compWait {
+						return true
+					}
+					if first {
+						first = false
+						return r.relClose(id)
+					}
+					return r.sendRel(id, 1) // after the resume: the repeated PUBREL
+				})
+			}
 		case "pub1":
 			u := &q1{id: packet.ID(100 + r.nmsg), m: r.newMsg(1)}
 			r.unacked = append(r.unacked, u)
@@ -504,6 +635,14 @@ func runCase(c *Case) (*verdict, int64, *runner) {
 			})
 		case "drop":
 			if r.alive {
+				r.link.Broker.Drop()
+				r.account(r.link)
+			}
+		case "amnesia":
+			if r.alive && !r.c.Clean {
+				r.lost = true
+				r.amnesias++
+				r.log.Add(memconn.Event{Actor: "broker", Op: "session-lost", Note: "the broker restarts without its session: open handshakes forgotten, ids start over"})
 				r.link.Broker.Drop()
 				r.account(r.link)
 			}
@@ -592,7 +731,7 @@ func genCase(rt *rapid.T) *Case {
 	c := &Case{Early: rapid.IntRange(0, 4).Draw(rt, "early") == 0, Clean: rapid.IntRange(0, 2).Draw(rt, "clean") == 0}
 	n := rapid.IntRange(1, 10).Draw(rt, "n")
 	for i := 0; i < n; i++ {
-		k := rapid.SampledFrom([]string{"pub", "pub", "pub", "rel", "rel", "rel", "rel2", "pub1", "pub0", "drop"}).Draw(rt, "kind")
+		k := rapid.SampledFrom([]string{"pub", "pub", "pub", "rel", "rel", "rel", "rel2", "pub1", "pub0", "drop", "relclose", "amnesia"}).Draw(rt, "kind")
 		c.Ops = append(c.Ops, Op{Kind: k, ID: rapid.IntRange(1, 3).Draw(rt, "id")})
 	}
 	if rapid.Bool().Draw(rt, "rejecting") {
@@ -610,7 +749,7 @@ func genCase(rt *rapid.T) *Case {
 
 func TestC10(t *testing.T) {
 	run := ev.Start("C10", "fault_enumeration")
-	run.Rule("fake-broker scripts of 1-10 steps over {QoS 2 PUBLISH on ids 1-3 (fresh, or the unanswered one again with DUP), PUBREL (also repeated while unanswered, or twice back to back), fresh QoS 1 / QoS 0 messages, drop + resume with the same session}, interpreted against the sender state so that the broker always obeys the MQTT sender rules (after every resume it retransmits PUBLISH dup / PUBREL as a correct broker would); application verdicts (accept / reject) drawn per callback invocation; both callback modes; clean session on and off (with a clean session a reconnect discards the open handshakes on both sides). Every script runs fault free and then once per (operation k, before/after) for EVERY send and receive on the client's connection(s). Oracle = the sender-side handshake model: every PUBLISH answered by PUBREC/PUBACK and every PUBREL by PUBCOMP (a QoS 1 barrier behind the packet makes a missing answer definite), per completed handshake exactly one accepted delivery (default mode), no acknowledgement after a rejected delivery and the connection closed, nothing delivered zero times in the end. non-trivial = a retransmission, a repeated PUBREL, a rejected delivery or a fault while a handshake is open; distinct by (script, fault)")
+	run.Rule("fake-broker scripts of 1-10 steps over {QoS 2 PUBLISH on ids 1-3 (fresh, or the unanswered one again with DUP), PUBREL (also repeated while unanswered, or twice back to back), fresh QoS 1 / QoS 0 messages, drop + resume with the same session, PUBREL to a slow application that calls Client.Close() from another goroutine while the callback is still running and resumes with a new client as soon as Close has returned, the broker losing its session (CONNACK without session present, open handshakes forgotten, packet ids reused for new messages while the client still stores the old ones)}, interpreted against the sender state so that the broker always obeys the MQTT sender rules (after every resume it retransmits PUBLISH dup / PUBREL as a correct broker would); application verdicts (accept / reject) drawn per callback invocation; both callback modes; clean session on and off (with a clean session a reconnect discards the open handshakes on both sides). Every script runs fault free and then once per (operation k, before/after) for EVERY send and receive on the client's connection(s). Oracle = the sender-side handshake model: every PUBLISH answered by PUBREC/PUBACK and every PUBREL by PUBCOMP (a QoS 1 barrier behind the packet makes a missing answer definite), per completed handshake exactly one accepted delivery (default mode), no acknowledgement after a rejected delivery and the connection closed, nothing delivered zero times in the end. non-trivial = a retransmission, a repeated PUBREL, a rejected delivery or a fault while a handshake is open; distinct by (script, fault)")
 	run.Assume("early callback mode (AlwaysAnnounceOnPublish) documents redelivery: only the acknowledgement clauses are judged there")
 	defer run.Finish(t)
 
@@ -639,6 +778,12 @@ func TestC10(t *testing.T) {
 		if r.repRel > 0 {
 			run.Class("repeated-pubrel")
 		}
+		if r.appCloses > 0 {
+			run.Class("close-during-callback")
+		}
+		if r.amnesias > 0 {
+			run.Class("broker-lost-session")
+		}
 		if v != nil {
 			report(v, c)
 			return
@@ -660,6 +805,10 @@ func TestC10(t *testing.T) {
 		{Ops: []Op{{"pub", 1}, {"pub", 2}, {"rel", 2}, {"drop", 0}, {"rel", 1}, {"pub", 1}, {"rel", 1}}},
 		{Ops: []Op{{"pub", 1}, {"rel", 1}, {"pub1", 0}, {"pub0", 0}}, Reject: []bool{true, false}},
 		{Ops: []Op{{"pub", 3}, {"drop", 0}, {"pub", 3}, {"rel", 3}}, Early: true},
+		{Ops: []Op{{"pub", 1}, {"relclose", 1}, {"pub", 1}, {"rel", 1}}},
+		{Ops: []Op{{"pub", 1}, {"amnesia", 0}, {"pub", 1}, {"rel", 1}}},
+		{Ops: []Op{{"pub", 1}, {"pub", 2}, {"rel", 2}, {"amnesia", 0}, {"pub", 2}, {"pub", 1}, {"rel", 1}, {"rel", 2}}, Early: true},
+		{Ops: []Op{{"pub", 2}, {"pub", 1}, {"relclose", 2}, {"relclose", 1}, {"pub1", 0}}},
 	}
 	if shard, _ := ev.Shard(); shard == 0 {
 		for _, c := range fixed {
